@@ -238,8 +238,12 @@ def run_check(pid, tier, seed, budget=None, time_cap=None, repo_root=None, write
     ev = build_evidence(pid, tier, seed, pm, jobs, results, worlds, wall, known_hits, reported,
                         harness_errors, det_mismatch, len(sample), skipped, shrink_log)
     if write_evidence:
-        os.makedirs(os.path.join(VERIF_ROOT, "evidence"), exist_ok=True)
-        with open(os.path.join(VERIF_ROOT, "evidence", f"{pid}.json"), "w") as f:
+        # runs against a scratch copy (QSIM_REPO=<worktree>, used for the seeded changes) must not
+        # overwrite the evidence of /repo itself: theirs goes next to the replays (git-ignored)
+        evdir = os.path.join(VERIF_ROOT, "evidence") if os.path.realpath(REPO_ROOT) == "/repo" \
+            else os.path.join(VERIF_ROOT, "replays", "evidence_scratch")
+        os.makedirs(evdir, exist_ok=True)
+        with open(os.path.join(evdir, f"{pid}.json"), "w") as f:
             json.dump(ev, f, indent=1, sort_keys=True, default=str)
     # ---- report
     if verbose:
